@@ -35,7 +35,6 @@ Init == l \in 1..Len(Rec)
 Next == UNCHANGED l
 
 Has(r, f) == f \in DOMAIN r
-SetToSeq(S) == CHOOSE f \in [1..Cardinality(S) -> S] : \A i, j \in 1..Cardinality(S) : i # j => f[i] # f[j]
 
 Report(bk, what, detail) ==
   PrintT(<<"MISMATCH", ToJson([line |-> l, id |-> Rec[l].id, what |-> what, build |-> bk, detail |-> detail])>>)
@@ -80,14 +79,14 @@ BuildChecks(bk, gv, s, o) ==
              ELSE IF p.ok THEN "rejects-valid"
              ELSE IF allAccept THEN "accepts-invalid" ELSE "paths-disagree" IN
   /\ agree \/ Report(bk, "accept", [dir |-> dir, paths |-> o.acc, spec |-> p.ok, len |-> Len(s),
-                                    devs |-> SetToSeq({SetToSeq(D) : D \in devs})])
+                                    devs |-> devs])
   /\ Has(o, "disp") =>
-       IF p.ok THEN LawChecks(bk, s, gv, p.ts, o, <<>>)
+       IF p.ok THEN LawChecks(bk, s, gv, p.ts, o, {})
        ELSE IF devs # {} THEN
          LET D == CHOOSE D \in devs : TRUE IN
-         LawChecks(bk, s, gv, ParseSigD(s, gv, D).ts, o, SetToSeq(D))
+         LawChecks(bk, s, gv, ParseSigD(s, gv, D).ts, o, D)
        ELSE TRUE
-  /\ Has(o, "fmt_panic") => Report(bk, "format", [under |-> <<>>, d |-> [panic |-> o.fmt_panic]])
+  /\ Has(o, "fmt_panic") => Report(bk, "format", [under |-> {}, d |-> [panic |-> o.fmt_panic]])
 
 (* The two builds differ only in the treatment of 'm' (109): for a string without it, identical
    observations need to be judged once. *)
